@@ -6,7 +6,7 @@ from core import *
 import props, extract
 cfg, sub = sys.argv[1], sys.argv[2]
 what = sys.argv[3] if len(sys.argv) > 3 else "ret"
-F = Facts(extract.extract("/repo", cfg)[0])
+F = Facts(extract.extract(os.environ.get("VP_REPO", "/repo"), cfg)[0])
 ev = props.make_eval(F)
 if len(sys.argv) > 4 and sys.argv[4] == "noinline":
     ev = Eval(F, opaque=list(F.bodies.keys()))
